@@ -132,8 +132,7 @@ def main():
         "not_applicable": na,
         "notes": "Technique family: runtime monitoring and sanitizers. Every verdict is an oracle over observed executions of the real code; see DESIGN.md. Known findings: known_findings.jsonl. Seeded changes used to validate the monitors: seeded/.",
     }
-    if not na:
-        del m["not_applicable"]
+    # every property is claimed: the list stays present and empty
     json.dump(m, open(os.path.join(ROOT, "MANIFEST.json"), "w"), indent=1)
     print("checks:", [c["property_id"] for c in checks], "n/a:", len(na))
 
